@@ -103,6 +103,9 @@ class ProgGen(object):
                 st["table"] = {"header": ["point", "coord", "coord"], "rows": [["A", "1", "2"], ["B", "", "9"]][: r.randint(1, 2)]}
             else:
                 st["table"] = {"header": ["name", "value"], "rows": [["x", "1"], ["y|z", ""]][: r.randint(0, 2)]}
+            if r.random() < 0.25:
+                # behave accepts a doc-string AND a table behind one step (context.text and context.table are both set)
+                st["doc"] = r.choice(["text above a table", "two\n  lines"])
         elif r.random() < o["p_doc"]:
             st["doc"] = r.choice(["one line", "two\n  lines", ""])
         return st
